@@ -1,5 +1,98 @@
+import re
 from vlib import Prop
 from props.c16 import hx
+
+
+def enc_varint(v):
+    if v < 64:
+        return [v]
+    if v < 2**14:
+        return [0x40 | v >> 8, v & 255]
+    if v < 2**30:
+        return [0x80 | v >> 24, v >> 16 & 255, v >> 8 & 255, v & 255]
+    return [0xc0 | v >> 56] + [(v >> s) & 255 for s in (48, 40, 32, 24, 16, 8, 0)]
+
+
+QUARTERS = [0, 1, 15, 16, 63, 64, 4095, 4096, 16383, 16384, 2**28, 2**30 - 1, 2**30, 2**60 - 1]
+
+
+def splits2(p):
+    """every way to cut p into two non-empty pieces"""
+    return [[p[:i], p[i:]] for i in range(1, len(p))]
+
+
+def scen_case(rng):
+    """`dgram scen`: DatagramSender / DatagramReader of a plain client / server connection over SimQuic; every answer
+    the transport may give to send_datagram; the driver being polled or not while it happens."""
+    role = rng.choice(["client", "client", "server"])
+    t = "drv" if role == "client" else "conn"
+    drv = "W" if role == "client" else "AL"
+
+    def sid():
+        r = rng.random()
+        if r < 0.01:
+            return rng.choice([1, 2, 3, 6, 2**62, 2**62 + 4])
+        return 4 * (rng.choice(QUARTERS) if r < 0.7 else rng.getrandbits(rng.choice([6, 14, 30, 60])))
+
+    def pay():
+        return [rng.getrandbits(8) for _ in range(rng.choice([0, 0, 1, 2, 3, 20, 100]))]
+
+    def send(maxed=False):
+        s = sid()
+        ps = [pay() for _ in range(rng.choice([1, 1, 1, 2, 3]))]
+        pre = []
+        if maxed and s % 4 == 0 and s < 2**62:
+            w = len(enc_varint(s // 4)) + len(ps[0])
+            pre = ["dq:max=%d" % max(0, w + rng.choice([-2, -1, 0, 0, 1, 2]))]
+        return pre + ["%s.dgs:%d:%s" % (t, s, ",".join(hx(p) for p in ps))]
+
+    def incoming():
+        r = rng.random()
+        if r < 0.6:
+            return "d:" + hx(enc_varint(rng.choice(QUARTERS) if rng.random() < 0.7 else rng.getrandbits(rng.choice([6, 14, 30, 59]))) + pay())
+        if r < 0.7:
+            return "d:" + hx(enc_varint(rng.randrange(2**60, 2**62)) + pay())      # stream id beyond 2^62-1
+        if r < 0.8:
+            full = enc_varint(rng.choice([64, 16384, 2**30, 2**61]))
+            return "d:" + hx(full[:rng.randrange(0, len(full))])                 # truncated integer (incl. the empty datagram)
+        return "d:" + hx([rng.getrandbits(8) for _ in range(rng.randrange(1, 10))])
+
+    ops = []
+    if rng.random() < 0.5:
+        ops.append("%s.%s" % (t, drv))
+    for _ in range(rng.randrange(1, 7)):
+        r = rng.random()
+        if r < 0.3:
+            ops += send(maxed=rng.random() < 0.4)
+        elif r < 0.42:
+            ops.append("dq:" + rng.choice(["ok", "na", "tl", "na", "tl", "C%d" % rng.choice([0, 7, 256, 2**62 - 1]), "T", "I", "U"]))
+            ops += send()
+        elif r < 0.62:
+            ops.append(incoming())
+        elif r < 0.8:
+            ops.append("%s.dgr" % t + rng.choice(["", "", ":2", ":3"]))
+        elif r < 0.88:
+            ops.append("%s.%s" % (t, rng.choice([drv, drv, "A"] if role == "server" else [drv])))
+        elif r < 0.94:
+            ops.append(rng.choice(["T", "C%d" % rng.choice([0, 9, 0x33, 2**40])]))
+        else:
+            ops += [incoming(), incoming()]
+    if rng.random() < 0.5:
+        ops.append("%s.%s" % (t, rng.choice(["A", "AL"]) if role == "server" else "W"))
+    return "dgram scen %s dg=%d %s" % (role, rng.choice([0, 1, 1]), " ".join(ops))
+
+
+def project_scen(impl):
+    """what the model of `dgram scen` predicts: the trace, the codes h3 closed the connection with, the datagrams
+    handed to the transport, the calls left waiting"""
+    if " | " not in impl:
+        return impl
+    trace, summ = impl.split(" | ", 1)
+    out = trace.split()
+    for key in ("closed", "dgrams", "pending"):
+        m = re.search(key + r"=\[[^\]]*\]", summ)
+        out.append(m.group(0) if m else key + "=[]")
+    return " ".join(out)
 
 
 class C18(Prop):
@@ -13,20 +106,40 @@ class C18(Prop):
                   "yields exactly those bytes under every consumption pattern (induction over the call list); decode∘encode = id; "
                   "decode is total: H3_DATAGRAM_ERROR iff varint truncated or 4q > 2^62-1, no u64 wrap; the same model and oracle "
                   "also answer for DatagramSender::send_datagram / DatagramReader::read_datagram of a WebTransport session over the "
-                  "simulated transport (engine wt)")
+                  "simulated transport (engine wt); the payload Buf may be ANY list of non-empty chunks (C18_payload_chunking_independent: "
+                  "remaining = header + all chunks, every chunk/advance pattern and the chunk-by-chunk read to the end yield "
+                  "varint(S/4) ++ the flattened payload); the error arms of send_datagram (C18_send_error_classes: NotAvailable / TooLarge "
+                  "go to the caller and are not connection errors, a transport connection error is stored as the connection's error; "
+                  "C18_send_error_is_outcome_partial + C18_D18b_witness: the sender names it as the connection does except for the idle "
+                  "timeout, finding D-18b); `dgram scen`: the datagram handles of a plain CLIENT and a plain server connection "
+                  "(h3-datagram client.rs / server.rs) over SimQuic under every answer the transport may give")
     level_note = ("trusted: Lean kernel + 3 standard axioms; model tied to the code by differential run (k in 0..2^16 exhaustively, "
                   "form boundaries, payloads 0..1500, consumption patterns, all byte strings of length 0..2 for decode); payload "
                   "Buf modelled as one contiguous Bytes; h3-quinn's send path (copy_to_bytes of the Buf) covered by the Buf-view theorem; "
                   "engine wt: real h3-webtransport session over SimQuic — datagram_sender().send_datagram for CONNECT ids in every "
                   "varint form of the quarter id, datagram_reader().read_datagram on well-formed and malformed datagrams, and the "
-                  "connection close with H3_DATAGRAM_ERROR that the next accept of the session reports")
+                  "connection close with H3_DATAGRAM_ERROR that the next accept of the session reports; `dgram encm`: the payload is a "
+                  "multi-chunk Buf (every 2-way split of payloads of 2, 3, 5, 9 bytes per varint form of the quarter id, sampled 3..8-way "
+                  "splits of payloads up to 1300 bytes, under chunk-wise / crossing-read / direct-advance patterns); `dgram scen`: real "
+                  "client::Connection / server::Connection over SimQuic, get_datagram_sender(stream id) for ids in every varint form, 1-3 "
+                  "datagrams through one sender, the transport answering Ok / NotAvailable / TooLarge (always, or by a maximum set to the "
+                  "encoded size -2..+2) / ConnectionError(ApplicationClose, Timeout, InternalError, Undefined) to the sender alone or "
+                  "failing as a whole, get_datagram_reader with 1-3 reads through one reader (waiting or not when the datagram / the "
+                  "failure comes), the driver (wait_idle / accept) polled before, during or after: what it reports and the code h3 closes with")
     rule = ("cases: enc for S=4k, k in 0..2^16 exhaustive + form boundaries + random k, payload lengths 0..1500, consumption "
             "patterns all/bytewise/random; dec for all strings of length 0..2, every first byte x truncation, random 0..9 bytes; "
             "non-trivial = implementation result starts with ok or err (not bad-op/refused/panic); wt lines: 1..6 datagram "
             "operations per session (send 0..1500 bytes; receive for the session, for other ids, truncated quarter id incl. the "
-            "empty datagram, quarter id >= 2^60), non-trivial = the session was accepted")
+            "empty datagram, quarter id >= 2^60), non-trivial = the session was accepted; encm lines: non-trivial as enc; scen lines: "
+            "1-8 ops, non-trivial = at least one send_datagram / read_datagram answered")
     trusted = ["bytes::Bytes Buf impl for the payload"]
-    assumptions = ["payload Buf is contiguous (Bytes); a multi-chunk payload Buf is forwarded unchanged by chunk/advance"]
+    assumptions = ["the payload Buf is lawful: remaining() = bytes left, chunk() non-empty while bytes are left, advance(k) drops k bytes "
+                   "(modelled as a list of non-empty chunks)",
+                   "`dgram scen`: the interpreter's task discipline (a waiting call blocks its task, later commands queue, a polled "
+                   "driver speaks between two commands) is shared by the model and the specification run; what the two runs differ in "
+                   "is the wire format, the decoder and the naming of the sender's connection error",
+                   "a transport that reports two DIFFERENT connection errors is outside the transport contract: the specification has "
+                   "an opinion on the sender's answer only when its error is the connection's first"]
 
     def cases(self, tier, rng):
         L = []
@@ -66,6 +179,33 @@ class C18(Prop):
         for _ in range(100000 if big else 10000):
             n = rng.randrange(0, 10)
             L.append("dgram dec " + hx([rng.randrange(256) for _ in range(n)]))
+        # a NON-CONTIGUOUS payload Buf: every 2-way split of a payload, sampled 3-way / n-way splits, under every kind of
+        # consumption pattern (the oracle never sees the chunking)
+        mpats = pats + ["r1,r1,r1,r1", "a1,1,a1,1", "r2,a1,r3", "a3,r2", "r100"]
+        for q in QUARTERS + [rng.getrandbits(rng.choice([6, 14, 30, 60])) for _ in range(60 if big else 6)]:
+            for n in (2, 3, 5, 9):
+                p = [rng.randrange(256) for _ in range(n)]
+                for cs in splits2(p):
+                    L.append("dgram encm %d %s %s" % (4 * q, "|".join(hx(c) for c in cs), rng.choice(mpats)))
+        for _ in range(20000 if big else 2500):
+            q = rng.choice(QUARTERS) if rng.random() < 0.5 else rng.getrandbits(rng.choice([6, 14, 30, 60]))
+            n = rng.choice([2, 3, 4, 6, 10, 40, 300, 1300])
+            p = [rng.randrange(256) for _ in range(n)]
+            k = rng.choice([2, 3, 3, 3, 4, min(n, 8)])
+            cuts = sorted(rng.sample(range(1, n), min(k - 1, n - 1)))
+            cs = [p[a:b] for a, b in zip([0] + cuts, cuts + [n])]
+            r = rng.random()
+            if r < 0.4:
+                pat = rng.choice(mpats)
+            else:
+                pat = ",".join(rng.choice(["r", "a", "a", ""]) + str(rng.choice([0, 1, 1, 2, 3, 4, 7, 9, 40]))
+                               for _ in range(rng.randrange(1, 7)))
+            L.append("dgram encm %d %s %s" % (4 * q, "|".join(hx(c) for c in cs), pat))
+        for s in (1, 2, 2**62):
+            L.append("dgram encm %d 00|01 all" % s)
+        # the client's and the server's datagram handles over the simulated transport, every send error
+        for _ in range(40000 if big else 6000):
+            L.append(scen_case(rng))
         # the observation point "DatagramSender / DatagramReader over the simulated transport" (engine wt, shared with C19)
         from props.c19 import PROP as C19P
         for _ in range(30000 if big else 3000):
@@ -73,13 +213,49 @@ class C18(Prop):
         return L
 
     def project(self, line, impl):
+        if line.startswith("dgram scen "):
+            return project_scen(impl)
         if line.startswith("wt "):
             from props.c19 import PROP as C19P
             return C19P.project(line, impl)
         return impl
 
+    def finding_applies(self, line, impl, model, spec, finding):
+        """D-18b waives a line only if naming the idle timeout the way the connection does, in the answers of
+        send_datagram and nowhere else, is all that separates the implementation from the specification"""
+        if finding.get("key") != "site:D-18b":
+            return True
+        import vlib
+        if line.startswith("wt "):
+            # the judge's verdict names the first token it refuses and what it expected there
+            m = re.match(r"BAD@(\d+):expected:(\S+) (.*)$", impl)
+            if not m:
+                return False
+            obs = m.group(3).split()
+            k = int(m.group(1))
+            return m.group(2) == "conn.dgs=err:conn:timeout" and k < len(obs) and obs[k] == "conn.dgs=err:conn:remote:timeout"
+        fixed = " ".join(t.replace("err:conn:remote:timeout", "err:conn:timeout") if ".dgs=" in t else t for t in impl.split())
+        return fixed != impl and vlib.spec_match(spec, fixed)
+
     def klass(self, line, impl):
         w = line.split()
+        if w[0] == "dgram" and w[1] == "scen":
+            if " " not in impl:
+                return "scen/" + impl
+            k = set()
+            for t in impl.split():
+                a, b = t.split("=", 1)
+                a = a.split(".")[-1]
+                if a in ("dgs", "dgr"):
+                    for x in b.split(","):
+                        k.add(a + "=" + ("dg" if x.startswith("dg:") else ":".join(x.split(":")[:4 if "app" not in x else 3])))
+                elif a in ("W", "A"):
+                    k.add("drv=" + ":".join(b.split(":")[:3 if "app" not in b else 2]))
+                elif a == "closed" and b != "[]":
+                    k.add(t)
+                elif a == "pending" and b != "[]":
+                    k.add("pending=" + b.strip("[]").split(".")[-1])
+            return "scen/" + w[2] + "/" + "+".join(sorted(k))
         if w[0] == "wt":
             k = []
             if "conn.dgs=ok" in impl:
@@ -92,6 +268,8 @@ class C18(Prop):
                 k.append("closed")
             return "wt/" + ("+".join(k) if k else impl.split(" ")[0])
         r = impl.split(" ")[0]
+        if w[1] == "encm":
+            return "encm/%d-chunks/%s" % (min(w[3].count("|") + 1, 4), r)
         if w[1] == "dec":
             tag = "empty" if w[2] == "-" else "form%d" % (int(w[2][:2], 16) >> 6)
             return "dec/%s/%s" % (tag, r)
@@ -100,6 +278,8 @@ class C18(Prop):
     def trivial(self, line, impl):
         if line.startswith("wt "):
             return "conn.WT=ok" not in impl
+        if line.startswith("dgram scen "):
+            return ".dgs=" not in impl and ".dgr=" not in impl
         return not (impl.startswith("ok") or impl.startswith("err"))
 
     def shrink_candidates(self, line):
@@ -108,6 +288,31 @@ class C18(Prop):
         if w[0] == "wt":
             from props.c19 import PROP as C19P
             return C19P.shrink_candidates(line)
+        if w[1] == "scen":
+            ops = w[4:]
+            for i in range(len(ops) - 1, -1, -1):
+                out.append(" ".join(w[:4] + ops[:i] + ops[i + 1:]))
+            for i, o in enumerate(ops):
+                if ".dgs:" in o:
+                    head, hexes = o.rsplit(":", 1)
+                    hs = hexes.split(",")
+                    if len(hs) > 1:
+                        for j in range(len(hs)):
+                            out.append(" ".join(w[:4] + ops[:i] + [head + ":" + ",".join(hs[:j] + hs[j + 1:])] + ops[i + 1:]))
+                    elif len(hs[0]) > 2:
+                        out.append(" ".join(w[:4] + ops[:i] + [head + ":" + hs[0][:2]] + ops[i + 1:]))
+            return out
+        if w[1] == "encm":
+            cs = w[3].split("|")
+            if len(cs) > 2:
+                out.append(" ".join(w[:3] + ["|".join([cs[0] + cs[1]] + cs[2:]), w[4]]))
+                out.append(" ".join(w[:3] + ["|".join(cs[:-2] + [cs[-2] + cs[-1]]), w[4]]))
+            for i, c in enumerate(cs):
+                if len(c) > 2:
+                    out.append(" ".join(w[:3] + ["|".join(cs[:i] + [c[:2]] + cs[i + 1:]), w[4]]))
+            if w[4] != "all":
+                out.append(" ".join(w[:4] + ["all"]))
+            return out
         if w[1] == "enc":
             if w[3] != "-" and len(w[3]) > 2:
                 out.append(" ".join(w[:3] + [w[3][:2], w[4]]))
